@@ -16,7 +16,7 @@ func GetNalusFromSample(sample []byte) ([][]byte, error) {
 	for pos < uint32(length-4) {
 		naluLength := binary.BigEndian.Uint32(sample[pos : pos+4])
 		pos += 4
-		if int(pos+naluLength) > len(sample) {
+		if uint64(pos)+uint64(naluLength) > uint64(len(sample)) { // No uint32 wrap-around
 			return nil, fmt.Errorf("NALU length fields are bad. Not video?")
 		}
 		naluList = append(naluList, sample[pos:pos+naluLength])
